@@ -90,6 +90,9 @@ fn alphabet() -> Vec<Tpl> {
         tpl("a = (a = 1) + a", Some("a"), &["a", "a"], &["a"]),
         tpl("(() => (b = 1))()", None, &[], &["b"]),
         tpl("f = () => do {\n a = a + 1\n return a\n}", Some("f"), &["f"], &["a", "f"]),
+        // a do-block that uses an outer function and then shadows its name (directly and through a closure made in the block)
+        tpl("c = do {\n t = f(1)\n f = x => x * 1000 + 7\n return f(2)\n}", Some("c"), &["c"], &["c", "f"]),
+        tpl("c = do {\n t = f(1)\n f = x => x * 1000 + 7\n return (y => f(y))(3)\n}", Some("c"), &["c"], &["c", "f"]),
         tpl("c = do {\n a = f\n return 1\n}", Some("c"), &["c"], &["a", "c", "f"]),
     ]
 }
@@ -173,6 +176,8 @@ impl<'a> Monitor<'a> {
         self.snapshot_heap();
         let before = env_map(self.sess);
         let outer_bound_before = t.outer_target.as_ref().map(|n| before.contains_key(n)).unwrap_or(false);
+        // templates that first use the outer `f` and then shadow it: they must succeed whenever `f(1)` does
+        let must_succeed = t.src.starts_with("c = do {\n t = f(1)\n f = ") && !outer_bound_before && matches!(self.sess.eval("f(1)"), Out::Ok(_));
         verif_hooks::take_heap_muts();
         verif_hooks::set_recording(true);
         let res = self.sess.run(&t.src, false);
@@ -350,6 +355,9 @@ impl<'a> Monitor<'a> {
             }
             self.probes = now;
         }
+        if must_succeed && !matches!(out, Some(Out::Ok(_))) {
+            v.push(("shadowing-inner-value".to_string(), "a do-block that uses an outer function and then binds a local of the same name fails although every step is valid".to_string(), case(json!({"got": out.as_ref().map(|o| o.msg())}))));
+        }
         // I6 predicted inner values for the simple shadowing templates
         if let Some(Out::Ok(val)) = &out {
             let r = self.sess.rval(val);
@@ -362,6 +370,8 @@ impl<'a> Monitor<'a> {
                 "a = do {\n a = 1\n return a\n}" => Some(RVal::num(1.0)),
                 "(x => (b = x))(9)" => Some(RVal::num(9.0)),
                 "do {\n inputs = 5\n return inputs\n}" => Some(RVal::num(5.0)),
+                "c = do {\n t = f(1)\n f = x => x * 1000 + 7\n return f(2)\n}" => Some(RVal::num(2007.0)),
+                "c = do {\n t = f(1)\n f = x => x * 1000 + 7\n return (y => f(y))(3)\n}" => Some(RVal::num(3007.0)),
                 _ => None,
             };
             if let Some(e) = expect {
